@@ -1,15 +1,15 @@
 """C18 — every documented dataset is reachable by name and well-formed."""
 from tools.harness.core import Property
-from tools.props.dataset_units import DatasetLookupUnit
+from tools.props.dataset_units import DatasetLookupUnit, RegistryScanUnit
 
 
 class P(Property):
     id = "C18"
     gen_targets = ["Registry", "DocTables", "Bundled", "Dispatch"]
-    rule = "exhaustive: all 95 documented names x 2 spellings x 2 unpack flags, plus data-home and unknown-name cases; distinct = (name, unpack, env)"
+    rule = "exhaustive: all 95 documented names x 2 spellings x 2 unpack flags, plus data-home and unknown-name cases; distinct = (name, unpack, env); one scan of all remote datasets for pairwise distinct remote files, URLs and checksums"
 
     def units(self, tier):
-        return [DatasetLookupUnit()]
+        return [DatasetLookupUnit(), RegistryScanUnit()]
 
 
 PROPERTY = P()
